@@ -157,6 +157,11 @@ c.ghost_init = _wrapped_ghost_init
 c.dispatch_override = {'co_run': 'AbstractJob.co_run'}
 c.requires('job-is-a-job', lambda c: And(isa['AbstractJob'](c.a.job), isa['Window'](c.a.self),
                                          isa['Queue'](c.pre.f('queue', c.a.self))))
+# a job handed to the window is not running yet: checked where the task is created (_create_task, through E2) and
+# kept until the first step of this coroutine by its own rely (nobody else writes this job's _running)
+_NOT_RUNNING = ('job-not-running-at-entry', lambda c: Not(c.pre.f('_running', c.a.job)))
+c.requires(*_NOT_RUNNING)
+c.entry_requires = [_NOT_RUNNING]
 
 
 def _wrapped_rely(c):
